@@ -21,7 +21,7 @@ def sample_behaviours(ctx: Ctx, num: int, seed: int, depth: int = 90, cfg: str =
     cmd = ["java", "-XX:+UseParallelGC", "-Xmx4g", f"-Djava.io.tmpdir={d}", "-cp", TLA_CP, "tlc2.TLC", "-metadir", str(d / "meta"),
            "-noGenerateSpecTE", "-workers", "1", "-deadlock", "-simulate", f"file={d}/tr,num={num}", "-depth", str(depth),
            "-seed", str(seed), "-config", str(SPEC / cfg), str(SPEC / "MCDriver.tla")]
-    p = subprocess.run(cmd, cwd=d, capture_output=True, text=True, timeout=900)
+    p = subprocess.run(cmd, cwd=d, capture_output=True, text=True, timeout=3600)
     if p.returncode != 0 and "Error" in p.stdout:
         raise Machinery("TLC simulation of MCDriver failed:\n" + p.stdout[-1500:])
     out = []
